@@ -116,8 +116,10 @@ class Simulation:
         self._last_event: Event | None = None
         self._events_cancelled: int = 0
 
-        # Pre-run scheduled events — replayed on reset()
-        self._pre_run_event_specs: list[tuple[Instant, str, object, bool, dict]] = []
+        # Pre-run scheduled events — replayed on reset().  The last field is the
+        # original event until the run starts (so a cancellation made before
+        # run() is honoured), then None.
+        self._pre_run_event_specs: list[tuple[Instant, str, object, bool, dict, Event | None]] = []
 
         # Control surface — lazy-created on first access
         self._control = None
@@ -212,12 +214,28 @@ class Simulation:
         for e in items:
             meta = e.context.get("metadata", {}) if e.context else {}
             self._pre_run_event_specs.append(
-                (e.time, e.event_type, e.target, e.daemon, dict(meta))
+                (e.time, e.event_type, e.target, e.daemon, dict(meta), e)
             )
+
+    def _freeze_pre_run_event_specs(self) -> None:
+        """Forget pre-run events that were cancelled before the run started.
+
+        Such an event is never delivered by the original run, so reset() must
+        not bring it back.  Cancellations made *during* the run are model
+        behaviour and happen again on replay, hence the originals are dropped
+        here and no longer consulted.
+        """
+        self._pre_run_event_specs = [
+            (*spec[:5], None)
+            for spec in self._pre_run_event_specs
+            if spec[5] is None or not spec[5].cancelled
+        ]
 
     def _replay_pre_run_events(self) -> None:
         """Recreate and push all events that were scheduled before the first run."""
-        for time, event_type, target, daemon, meta in self._pre_run_event_specs:
+        for time, event_type, target, daemon, meta, original in self._pre_run_event_specs:
+            if original is not None and original.cancelled:
+                continue
             ctx = {"metadata": dict(meta)} if meta else None
             fresh = Event(
                 time=time,
@@ -259,6 +277,7 @@ class Simulation:
             self._events_processed = 0
             self._is_running = True
             self._event_heap.set_current_time(self._current_time)
+            self._freeze_pre_run_event_specs()
 
             logger.info(
                 "Simulation starting at %r with %d event(s) in heap",
